@@ -42,6 +42,13 @@ fn dedup_cfg(rng: &mut Rng, cache: CacheMode, ctx: &Ctx) -> (StorageCfg, TopicCf
     (c, t)
 }
 
+/// sizes are counted where the payload is already in its stored form: encryption on in a third of the histories
+fn sizes_cfg(rng: &mut Rng, cache: CacheMode, ctx: &Ctx) -> (StorageCfg, TopicCfg) {
+    let (mut c, t) = base_cfg(rng, cache, ctx);
+    c.encryption = rng.chance(1, 3);
+    (c, t)
+}
+
 fn enc_cfg(rng: &mut Rng, cache: CacheMode, ctx: &Ctx) -> (StorageCfg, TopicCfg) {
     let (mut c, t) = base_cfg(rng, cache, ctx);
     c.encryption = true;
@@ -157,6 +164,7 @@ pub fn profile(check: &str) -> Profile {
             burst: (0, 1),
             nontrivial_any: vec!["purge", "send_after_restart", "partitions_deleted"],
             required: vec!["purge", "restart_shutdown"],
+            cfg: sizes_cfg,
             ..default
         },
         "C14" => Profile {
